@@ -568,4 +568,32 @@ def sumTips (d : Nat) : List Request → Nat
 def escrowB (S : State) : Bool :=
   [0, 1].all fun d => escrowGet S d == sumTips d S.reqs
 
+
+/-! ## gov `ExportGenesis` followed by `InitGenesis` of the exported state (the identity registrar's part)
+
+Export lists the records and the requests by ascending id and the two counters; import replays the records through
+`SetIdentityRecord` (which rebuilds the by-address index and panics on a value another address holds under a unique
+key) and the requests through `SetIdentityRecordsVerifyRequest` (which rebuilds both request indexes), then stores the
+two counters. Network properties and the permission whitelists of actors travel with the gov state; councilor records
+are not exported (recorded finding of C12) - an imported chain has none. `none` = InitGenesis panics. -/
+
+/-- insertion sort by a numeric key (structural, so closed instances evaluate in the kernel) -/
+def insertBy {α : Type} (key : α → Nat) (x : α) : List α → List α
+  | [] => [x]
+  | y :: ys => if key x ≤ key y then x :: y :: ys else y :: insertBy key x ys
+def sortBy {α : Type} (key : α → Nat) (l : List α) : List α := l.foldr (insertBy key) []
+
+def importRecords : List Record → State → Option State
+  | [], S => some S
+  | r :: rs, S => match setRecord S r with
+    | none => none
+    | some S' => importRecords rs S'
+
+def reimport (S : State) : Option State :=
+  let recs := sortBy (·.id) S.records
+  let reqs := sortBy (·.id) S.reqs
+  match importRecords recs { S with records := [], idx := [], reqs := [], byReq := [], byApp := [], councilors := [] } with
+  | none => none
+  | some S1 => some (reqs.foldl setReq S1)
+
 end Sekai.Ident
